@@ -86,6 +86,7 @@ static uint64_t now_ns(void) {
     return t;
 }
 
+static uint64_t s_stale_ts_now; /* schedule-now calls on a task object carrying an old non-zero time */
 static void do_schedule(struct vtask *vt) {
     int inc = vt->incarnations++;
     uint64_t when = 0;
@@ -106,6 +107,11 @@ static void do_schedule(struct vtask *vt) {
     vt->sched_time[inc & 1] = when;
     mon_ev(EV_SCHED_CALL, (uint64_t)vt->id, (uint64_t)inc, when);
     if (when == 0) {
+        if ((vt->id ^ inc) & 1) {
+            /* a task object that was used before still carries the time of that use: schedule-now means now all the same */
+            vt->task.timestamp = now_ns() + 2 * FAR_NS + 12345;
+            __atomic_fetch_add(&s_stale_ts_now, 1, __ATOMIC_RELAXED);
+        }
         aws_thread_scheduler_schedule_now(S.sched, &vt->task);
     } else {
         aws_thread_scheduler_schedule_future(S.sched, &vt->task, when);
@@ -521,6 +527,7 @@ static void check_history(struct mon_event *ev, size_t n, const struct mon_alloc
         }
     }
     mon_count("tasks_pending_at_release_cancelled_by_cleanup", n_pending_at_release);
+    mon_count("schedule_now_with_stale_timestamp_in_task", __atomic_exchange_n(&s_stale_ts_now, 0, __ATOMIC_RELAXED));
     struct mon_alloc_stats st1;
     mon_guard_stats(&st1);
     if (st1.live_blocks != st0->live_blocks) {
